@@ -18,7 +18,10 @@ Str == << <<72, 115>>, <<87, 97, 118, 101, 32, 104, 101, 105, 103, 104, 116>>, <
           <<104, 246, 104, 101>>, <<952>>, <<109, 178>>, <<>>, <<120, 32, 40, 121, 41>>,
           \* with line breaks: "Significant wave" LF "height", "a" CR LF "b", "a" CR "b", LF "lead", "trail" LF
           <<83, 105, 103, 110, 105, 102, 105, 99, 97, 110, 116, 32, 119, 97, 118, 101, 10, 104, 101, 105, 103, 104, 116>>,
-          <<97, 13, 10, 98>>, <<97, 13, 98>>, <<10, 108, 101, 97, 100>>, <<116, 114, 97, 105, 108, 10>> >>
+          <<97, 13, 10, 98>>, <<97, 13, 98>>, <<10, 108, 101, 97, 100>>, <<116, 114, 97, 105, 108, 10>>,
+          \* white space that must survive: "a" TAB "b", "a  b", "a   b", " lead", "trail ", "a " LF "b", "a" LF " b"
+          <<97, 9, 98>>, <<97, 32, 32, 98>>, <<97, 32, 32, 32, 98>>, <<32, 108, 101, 97, 100>>,
+          <<116, 114, 97, 105, 108, 32>>, <<97, 32, 10, 98>>, <<97, 10, 32, 98>> >>
 NStr == Len(Str)
 NameOf(s, d) == Str[((s + d) % NStr) + 1]
 UnitOf(s, d) == Str[((s + 3 * d + 2) % NStr) + 1]
@@ -135,7 +138,7 @@ PathRule == Saved => (fpath = Paths[cfg.path] <=> HasExt(Paths[cfg.path]))
 Shape == Saved => Len(lines) = 1 + cfg.npts /\ \A k \in 1..cfg.npts : Len(parsed[k]) = cfg.ndim
 (* exactly one header line, whatever the semantics strings contain *)
 OneHeaderLine == Saved => Len(lines) = 1 + cfg.npts /\ ~HasBreak(lines[1])
-                           /\ Solid(lines[1]) = Solid(Header(Names(cfg), Units(cfg)))
+                           /\ BreaksFlattened(lines[1], Header(Names(cfg), Units(cfg)))
 (* the parsed values are the coordinates rounded to 6 decimals *)
 ParsedIsRound6 == Saved => \A k \in 1..cfg.npts : \A d \in 1..cfg.ndim :
                      parsed[k][d] = Signed(RoundTo(Coord7(k, d), 6))
